@@ -59,7 +59,7 @@ REQUIRED = {
     "history/triangle_aspect_ratio": 1000, "history/face_near_border:dist=default": 1000, "history/border_normals": 1000,
     "history/curvature_matrices": 1500, "history/cell_faces_on_boundary": 300,
 }
-CASE_TIMEOUT = {"quick": 60.0, "thorough": 600.0}
+CASE_TIMEOUT = {"quick": 30.0, "thorough": 600.0}
 ASSUMPTIONS = [
     "inputs are non-degenerate: triangle corner angles >= 3 deg, polygon corners between 2.9 and 177.1 deg, |tet volume| >= 1e-7, "
     "max|coordinate| / min edge length <= 1e6 - this is what justifies the relative 1e-9 tolerance (conditioning <= ~4e3)",
